@@ -194,7 +194,14 @@ func ClassExprs(mode string, seed int, full bool) []ClassExpr {
 		its []citem
 	}{{false, []citem{sh('s'), sh('S')}}, {false, []citem{sh('d'), sh('D')}}, {false, []citem{sh('W'), sh('w')}}, {false, []citem{rr(0, 0x10FFFF)}}, {false, []citem{pp("L", false), pp("L", true)}},
 		{false, []citem{rr(0, 0x7f), rr(0x80, 0x10FFFF)}}, {true, []citem{rr(0, 0x10FFFF)}}, {true, []citem{sh('s'), sh('S')}}, {false, []citem{rr('a', 'z'), rr('0', '9')}}, {false, []citem{sh('w')}},
-		{true, []citem{r1('a')}}, {true, []citem{sh('d')}}, {false, []citem{rr(0, 'a'), rr('c', 0x10FFFF)}}}
+		{true, []citem{r1('a')}}, {true, []citem{sh('d')}}, {false, []citem{rr(0, 'a'), rr('c', 0x10FFFF)}},
+		// every rune but one in the ranges, plus a category that does / does not contain the missing rune,
+		// the category before and after the ranges, both polarities
+		{true, []citem{sh('d'), rr(0, 9), rr(0xB, 0x10FFFF)}}, {false, []citem{sh('d'), rr(0, 9), rr(0xB, 0x10FFFF)}},
+		{true, []citem{rr(0, 9), rr(0xB, 0x10FFFF), sh('d')}}, {true, []citem{sh('w'), rr(0, '`'), rr('b', 0x10FFFF)}},
+		{false, []citem{sh('w'), rr(0, '`'), rr('b', 0x10FFFF)}}, {true, []citem{sh('s'), rr(0, 'l'), rr('n', 0x10FFFF)}},
+		{true, []citem{pp("Lu", false), rr(0, 0x2F), rr(0x31, 0x10FFFF)}}, {true, []citem{rr(0, 'l'), rr('n', 0x10FFFF)}},
+		{true, []citem{rr(0, 'l'), rr('n', 0x10FFFF), r1('m')}}, {false, []citem{rr(0, 0xD7FF), rr(0xE000, 0x10FFFF)}}}
 	subs := []struct {
 		neg bool
 		its []citem
